@@ -16,7 +16,8 @@ def dump_mir(root, cfg="std"):
     work = os.path.join(root, f"mir-{cfg}")
     repo = scratch.copy_repo(work)
     feats = {"std": ["--no-default-features", "--features", "std"],
-             "nostd": ["--no-default-features", "--features", "critical-section,spin-lock"]}[cfg]
+             "nostd": ["--no-default-features", "--features", "critical-section,spin-lock"],
+             "mocks": ["--no-default-features", "--features", "std,mock-core,mock-std,mock-embedded-hal-1,mock-tokio-1,mock-futures-io-0-3"]}[cfg]
     cmd = ["cargo", "+nightly", "rustc", "--offline", "--lib", "--target-dir", os.path.join(work, "target")] + feats + \
           ["--", "-Zunpretty=mir", "-C", "debug-assertions=off", "-C", "overflow-checks=on"]
     t = time.time()
@@ -1970,6 +1971,302 @@ def unit_delegators(eng, tier, prop):
     return u.result()
 
 
+def unit_eval_generic(eng, tier, prop):
+    """C05 / C02 / C12: the generic glue eval::eval<F>: every decision of eval_dyn is mapped to the documented continuation,
+    the caller's `inputs` value is handed back UNCHANGED in every Continue, the matcher / debug closures only borrow it,
+    a returner without output is an error (never a default value)."""
+    u = Unit(eng, "eval-generic", ["eval::eval<F>", "eval::eval::{closure#0}", "eval::eval::{closure#1}", "DynCtx::downcast_responder"],
+             "every EvalResult / DynResponder variant; returner output Some/None; downcast Ok/Err")
+    f = eng.find_fn(r"^eval::eval$")
+    hs = []
+
+    def add(rx, h):
+        it_ = (re.compile(rx), h)
+        eng.handlers.insert(0, it_)
+        hs.append(it_)
+    RESPV = eng.enums["DynResponder"]
+
+    def h_dyn(call):
+        # arbitrary outcome of eval_dyn
+        k = eng.decide(call.m, ("evaldyn", call.fr.bb), [eng.named("dyn.outcome", 64) == i for i in range(4 + len(RESPV) - 1)])
+        call.m.event("eval_dyn", k)
+        if k == 0:
+            e = Adt("MockError", None)
+            e.tag = ("dyn_error",)
+            return eng.mk_enum("Result", "Err", e)
+        if k == 1:
+            return eng.mk_enum("Result", "Ok", Adt("EvalResult", eng.variant_index("EvalResult", "Unmock")))
+        if k == 2:
+            return eng.mk_enum("Result", "Ok", Adt("EvalResult", eng.variant_index("EvalResult", "CallDefaultImpl")))
+        variant = RESPV[k - 3]
+        r = Adt("DynResponder", eng.variant_index("DynResponder", variant))
+        r.fields[(variant, 0)] = Cell(Opaque("?", f"payload_{variant}"), None, f"payload_{variant}")
+        er = lazy_adt("EvalResponder", "er")
+        er.fields[(None, field_index(eng, "EvalResponder", "dyn_responder"))] = Cell(Ref(Cell(r, None, "the_responder")), None, "dyn_responder")
+        return eng.mk_enum("Result", "Ok", eng.mk_enum("EvalResult", "Responder", er))
+    add(r"^DynCtx::eval_dyn$", h_dyn)
+
+    def h_down(call):
+        k = eng.decide(call.m, ("downcast", call.fr.bb), [eng.named_bool("downcast.ok"), z3.Not(eng.named_bool("downcast.ok"))])
+        if k == 1:
+            e = Adt("MockError", None)
+            e.tag = ("downcast_error",)
+            return eng.mk_enum("Result", "Err", e)
+        tgt = lazy_adt("Typed", "typed_responder")
+        return eng.mk_enum("Result", "Ok", Ref(Cell(tgt, None, "typed_responder")))
+    add(r"^DynCtx::downcast_responder$", h_down)
+
+    def h_out(call):
+        k = eng.decide(call.m, ("output", call.fr.bb), [eng.named_bool("output.some"), z3.Not(eng.named_bool("output.some"))])
+        call.m.event("get_output")
+        if k == 0:
+            o = Adt("Output", None)
+            o.tag = ("the_output",)
+            return eng.mk_enum("Option", "Some", o)
+        return eng.mk_enum("Option", "None")
+    add(r"^Returner::get_output$", h_out)
+
+    def h_clone(call):
+        a = Adt("AnswerClosure", None)
+        a.tag = ("answer_closure_of", call.argv[0].cell.name if isinstance(call.argv[0], Ref) else "?")
+        return a
+    add(r"^<AnswerClosure as Clone>::clone$", h_clone)
+    try:
+        with opaque_calls(eng, [r"^<F as MockFn>::info$", r"^DynCtx::fn_call$", r"^FnMocker::debug_pattern$", r"^<Box as Clone>::clone$"]):
+            ref, uni, st = build_unimock(eng, 0)
+            inputs = Adt("Inputs", None)
+            inputs.tag = ("the_inputs",)
+            paths = u.explore(f, [ref, inputs])
+        out = eng.named("dyn.outcome", 64)
+        seen = set()
+        for p in paths:
+            if p.outcome[0] != "return":
+                if p.outcome[0] == "panic":
+                    u.must_be_true("C08.eval-never-panics-itself", False, {"site": p.outcome[1]})
+                continue
+            val = p.outcome[1]
+            k = events(p, "eval_dyn")[0][1]
+            is_ok = val.discr == eng.variant_index("Result", "Ok")
+            pay = val.fields[("Ok" if is_ok else "Err", 0)].val
+            ctx = {"dyn_outcome": k}
+            if is_ok:
+                ev = eng.enums["Eval"][pay.discr]
+                if ev == "Continue":
+                    cont = pay.fields[("Continue", 0)].val
+                    inp = pay.fields[("Continue", 1)].val
+                    ck = eng.enums["Continuation"][cont.discr]
+                    seen.add("Continue:" + ck)
+                    u.must_be_true("C05.inputs-handed-back-unchanged", isinstance(inp, Adt) and inp.tag == ("the_inputs",), {"got": repr(inp)[:60]})
+                    want = {1: "Unmock", 2: "CallDefaultImpl"}
+                    if k in want:
+                        u.must_be_true("C07.continuation-of-the-table-decision", ck == want[k], ctx)
+                    else:
+                        rv = RESPV[k - 3]
+                        wantk = {"Answer": "Answer", "Unmock": "Unmock", "ApplyDefaultImpl": "CallDefaultImpl"}.get(rv)
+                        u.must_be_true("C02.continuation-per-responder-kind", ck == wantk, {"responder": rv, "got": ck})
+                        if ck == "Answer":
+                            ac = cont.fields[("Answer", 0)].val
+                            u.must_be_true("C02.answer-closure-of-the-selected-responder", isinstance(ac, Adt) and ac.tag and ac.tag[0] == "answer_closure_of" and "typed_responder" in ac.tag[1], {"tag": getattr(ac, "tag", None)})
+                else:
+                    seen.add("Return")
+                    o = pay.fields[("Return", 0)].val
+                    u.must_be_true("C02.returned-output-is-the-returners", isinstance(o, Adt) and o.tag == ("the_output",), ctx)
+                    u.must_be_true("C02.return-only-for-return-responders", k >= 3 and RESPV[k - 3] == "Return", ctx)
+                    u.must_be_true("C12.output-requested-exactly-once-per-call", len(events(p, "get_output")) == 1)
+            else:
+                if isinstance(pay, Adt) and pay.tag:
+                    seen.add("Err:" + pay.tag[0])
+                    if pay.tag[0] == "dyn_error":
+                        u.must_be_true("C07.table-error-propagates", k == 0, ctx)
+                else:
+                    ek = eng.enums["MockError"][pay.discr]
+                    seen.add("Err:" + ek)
+                    if ek == "CannotReturnValueMoreThanOnce":
+                        u.must_hold("C12.no-output-is-an-error-never-a-default", p.pc, z3.Not(eng.named_bool("output.some")), ctx)
+                        u.must_be_true("C12.only-for-return-responders", k >= 3 and RESPV[k - 3] == "Return", ctx)
+                    elif ek == "ExplicitPanic":
+                        u.must_be_true("C02.explicit-panic-only-for-panic-responders", k >= 3 and RESPV[k - 3] == "Panic", ctx)
+                    else:
+                        u.must_be_true("C08.unexpected-error-kind", False, {"kind": ek})
+        need = {"Continue:Answer", "Continue:Unmock", "Continue:CallDefaultImpl", "Return", "Err:CannotReturnValueMoreThanOnce", "Err:ExplicitPanic", "Err:dyn_error", "Err:downcast_error"}
+        u.witness(f"all outcomes reachable missing={sorted(need - seen)}", [z3.BoolVal(need <= seen)])
+        # the two closures given to eval_dyn only BORROW the inputs (matcher and debugger see the caller's arguments)
+        for cname, callee_rx in (("closure#0", r"debug_inputs$"), ("closure#1", r"match_inputs")):
+            c = [x for x in eng.fns if x.raw_name == f"eval::eval::{{{cname}}}"]
+            ok = len(c) == 1 and any(re.search(callee_rx, cal) and any("(*_1).0" in a or "_1.0" in a or re.search(r"_\d+", a) for a in args) for cal, args in all_callees(eng, c[0]))
+            u.must_be_true(f"C05.{cname}-passes-the-borrowed-inputs", ok, {"callees": [cal[:60] for cal, _ in all_callees(eng, c[0])] if c else []})
+    finally:
+        for it_ in hs:
+            eng.handlers.remove(it_)
+    return u.result()
+
+
+# ------------------------------------------------------------------------------------------- C20: bundled mirrors
+def _trait_items(src, name):
+    """{method: has_body} for `trait name { .. }` in src (first definition), or None."""
+    m = re.search(r"\btrait\s+" + re.escape(name) + r"\b[^{;]*\{", src)
+    if not m:
+        return None
+    i = m.end() - 1
+    depth = 0
+    j = i
+    n = len(src)
+    while j < n:
+        if src[j] == "{":
+            depth += 1
+        elif src[j] == "}":
+            depth -= 1
+            if depth == 0:
+                break
+        j += 1
+    body = src[i + 1:j]
+    body = re.sub(r"//[^\n]*", "", body)
+    body = re.sub(r"/\*.*?\*/", "", body, flags=re.S)
+    out = {}
+    depth = 0
+    k = 0
+    L = len(body)
+    while k < L:
+        c = body[k]
+        if c == "{":
+            depth += 1
+        elif c == "}":
+            depth -= 1
+        elif depth == 0 and body.startswith("fn", k) and (k == 0 or not (body[k - 1].isalnum() or body[k - 1] == "_")) and k + 2 < L and body[k + 2] in " \t\n":
+            mm = re.match(r"fn\s+(\w+)", body[k:])
+            if mm:
+                # scan to the end of the signature: first `;` or `{` at bracket depth 0
+                q = k
+                pd = 0
+                while q < L:
+                    ch = body[q]
+                    if ch in "([<" and not (ch == "<" and body[q - 1] in "-="):
+                        pd += 1 if ch != "<" else 0
+                    elif ch in ")]":
+                        pd -= 1
+                    elif pd == 0 and ch in ";{":
+                        out[mm.group(1)] = (ch == "{")
+                        break
+                    q += 1
+                k = q
+                continue
+        k += 1
+    return out
+
+
+def _find_upstream(trait_path):
+    import glob
+    segs = trait_path.split("::")
+    name = segs[-1]
+    crate = segs[0]
+    roots = []
+    if crate in ("core", "std", "alloc"):
+        for tc in glob.glob(os.path.expanduser("~/.rustup/toolchains/nightly-*/lib/rustlib/src/rust/library")):
+            roots += [os.path.join(tc, c, "src") for c in ("core", "std", "alloc")]
+    else:
+        pat = {"embedded_hal": "embedded-hal-1*", "embedded_hal_1": "embedded-hal-1*", "tokio": "tokio-1*", "tokio_1": "tokio-1*", "futures_io": "futures-io-0.3*",
+               "futures_io_0_3": "futures-io-0.3*"}.get(crate, crate.replace("_", "-") + "-*")
+        roots += glob.glob(os.path.expanduser(f"~/.cargo/registry/src/*/{pat}/src"))
+    best = None
+    for root in roots:
+        for dp, _, fs in os.walk(root):
+            for f in fs:
+                if not f.endswith(".rs"):
+                    continue
+                pth = os.path.join(dp, f)
+                try:
+                    txt = open(pth).read()
+                except OSError:
+                    continue
+                if re.search(r"\bpub\s+(unsafe\s+)?trait\s+" + re.escape(name) + r"\b", txt):
+                    score = sum(1 for sg in segs[1:-1] if sg in pth.replace("\\", "/").split("src/")[-1])
+                    if best is None or score > best[0]:
+                        best = (score, pth, txt)
+    return best
+
+
+def unit_mirror_wiring(eng_unused, tier, prop, root=None):
+    """C20: for every trait mirrored under unimock::mock — each method evaluates its own MockFn; a method is treated as
+    provided (default body delegated to the UPSTREAM default) exactly when upstream provides it; the helper's impl of
+    the trait contains exactly the required methods."""
+    mir, repo, dt = dump_mir(root, "mocks")
+    eng = Engine(mir, repo)
+    u = Unit(eng, "mirror-wiring", ["every generated impl under src/mock/*.rs (MIR with all mock-* features)"], "all traits mirrored in src/mock/{core,std,embedded_hal_1,tokio_1,futures_0_3}.rs; all their methods")
+    import glob
+    mirrors = []
+    for path in sorted(glob.glob(os.path.join(repo, "src", "mock", "*.rs"))):
+        txt = open(path).read()
+        for m in re.finditer(r"#\[unimock\(([^\]]*)\)\]\s*pub\s+trait\s+(\w+)", txt):
+            attrs = m.group(1)
+            mm = re.search(r"mirror\s*=\s*([\w:]+)", attrs)
+            api = re.search(r"api\s*=\s*(\w+)", attrs)
+            if not mm:
+                continue
+            line = txt.count("\n", 0, m.start()) + 1
+            items = _trait_items(txt[m.start():], m.group(2))
+            lines = {}
+            for fm in re.finditer(r"\bfn\s+(\w+)", txt[m.start():]):
+                lines.setdefault(fm.group(1), txt.count("\n", 0, m.start() + fm.start()) + 1)
+            mpath = mm.group(1)
+            if "::" not in mpath:
+                # imported by a `use` of the file: qualify by the crate the file mirrors
+                mpath = {"tokio_1.rs": "tokio_1::io::", "futures_0_3.rs": "futures_io_0_3::"}.get(os.path.basename(path), "") + mpath
+            mirrors.append({"file": os.path.relpath(path, repo), "line": line, "trait": m.group(2), "mirror": mpath, "api": api.group(1) if api else None, "items": items or {}, "lines": lines})
+    u.must_be_true("C20.mirrors-found", len(mirrors) >= 15, {"n": len(mirrors)})
+    checked = 0
+    for mr in mirrors:
+        up = _find_upstream(mr["mirror"])
+        u.must_be_true(f"C20.upstream-definition-found[{mr['mirror']}]", up is not None)
+        if up is None:
+            continue
+        upstream = _trait_items(up[2], mr["mirror"].split("::")[-1]) or {}
+        # generated functions of this mirror: same file, impl span starting at the attribute line
+        gen = [f for f in eng.fns if f.impl_span and f.impl_span[0] == mr["file"] and f.impl_span[1] == mr["line"]]
+        on_mock = {}
+        on_helper = {}
+        for f in gen:
+            if "{closure" in f.short or not f.params:
+                continue
+            t0 = f.params[0][1]
+            if "DefaultImplDelegator" in t0:
+                on_helper[f.short] = f
+            elif "Unimock" in t0:
+                on_mock[f.short] = f
+        for meth, has_body in mr["items"].items():
+            ctx = {"trait": mr["mirror"], "method": meth}
+            if meth not in upstream:
+                u.must_be_true("C20.mirrored-method-exists-upstream", False, ctx)
+                continue
+            checked += 1
+            u.must_be_true("C20.provided-exactly-when-upstream-provides", has_body == upstream[meth], dict(ctx, mirror_has_body=has_body, upstream_provided=upstream[meth]))
+            f = on_mock.get(meth)
+            u.must_be_true("C20.method-implemented-on-the-mock", f is not None, ctx)
+            if f is None:
+                continue
+            bodies = [f] + [g for g in gen if re.search(r"::" + re.escape(meth) + r"::\{closure#\d+\}", g.raw_name)]
+            evals = [c for b in bodies for c, _ in all_callees(eng, b) if re.search(r"private::eval::<", c)]
+            ok = len(evals) >= 1 and all(re.search(r"(::|<|, |'_, )(__Generic)?" + re.escape(meth) + r"(<[^<>]*>)?>$", c.strip()) for c in evals)
+            u.must_be_true("C20.method-evaluates-its-own-mock-entry-point", ok, dict(ctx, evals=[c[-50:] for c in evals]))
+            delegates = any(re.search(r"<(default_impl_delegator::)?DefaultImplDelegator as .*>::" + re.escape(meth) + r"$", c) for b in bodies for c, _ in all_callees(eng, b))
+            u.must_be_true("C20.default-impl-arm-exactly-for-upstream-provided-methods", delegates == upstream[meth], dict(ctx, delegates=delegates))
+            if any(upstream.get(x) for x in mr["items"]):
+                # (traits without provided methods get no generated helper impl: nothing to delegate to)
+                u.must_be_true("C20.helper-overrides-exactly-the-required-methods", (meth in on_helper) == (not upstream[meth]), dict(ctx, on_helper=meth in on_helper))
+            # MockFnInfo: has_default_impl flag
+            ln = mr["lines"].get(meth)
+            infos = [g for g in eng.fns if g.short == "info" and g.impl_span and g.impl_span[0] == mr["file"] and g.impl_span[1] == ln]
+            if infos:
+                flag = any("default_impl" in c for c, _ in all_callees(eng, infos[0]))
+                u.must_be_true("C20.info-flags-provided-methods", flag == upstream[meth], dict(ctx, flag=flag))
+    u.witness(f"{checked} mirrored methods checked", [z3.BoolVal(checked >= 30)])
+    # Termination::report is partial by default
+    tr = [g for g in eng.fns if g.short == "info" and g.module.startswith("TerminationMock")]
+    u.must_be_true("C20.termination-report-is-partial-by-default", len(tr) == 1 and any(re.search(r"\.\d+: bool\) = const true", s_) for b in tr[0].blocks.values() for s_ in b.stmts), {})
+    r = u.result()
+    r["mir_dump_s"] = round(dt, 1)
+    return r
+
+
 def unit_todo(eng, tier, prop):
     u = Unit(eng, "todo", [], "")
     u.errors.append("unit not implemented yet")
@@ -1977,6 +2274,7 @@ def unit_todo(eng, tier, prop):
 
 
 UNITS = {
+    "mirror_wiring": unit_mirror_wiring,
     "delegators": unit_delegators,
     "schedules": unit_schedules,
     "call_path": unit_call_path,
@@ -1984,7 +2282,7 @@ UNITS = {
     "assembler": unit_assembler,
     "eval_dyn": unit_eval_dyn,
     "locked_closures": unit_locked_closures,
-    "eval_generic": unit_todo,
+    "eval_generic": unit_eval_generic,
     "tuples": unit_tuples,
     "construction": unit_construction,
     "statics": unit_statics,
@@ -2008,7 +2306,7 @@ def run(prop, tier, seed, root, names, units, replays):
     for n in names:
         fn = UNITS[n]
         try:
-            r = fn(eng, tier, prop)
+            r = fn(eng, tier, prop, root=root) if n == "mirror_wiring" else fn(eng, tier, prop)
         except (KeyError, Unsupported) as e:
             r = {"engine": "mirsym", "name": n, "status": "error", "note": f"stale query (source changed?): {e!r}", "obligations": 0}
         except Exception as e:
